@@ -8,7 +8,11 @@ RULE = ("pairs/triples/lists of spellings of structured versions and their order
         "local segments with one-character perturbations, zero runs up to 50, all 29 whitespace code points; law-rank compares the six operators, "
         "hash, set and sorted() with an independent reference order computed from the generating structure; "
         "non-trivial = both operands accepted; distinct by input text")
-ASSUMPTIONS = ["hash(): only 'equal implies equal hash' is observed, CPython's hash function itself is not modelled"]
+ASSUMPTIONS = ["hash(): only 'equal implies equal hash' is observed, CPython's hash function itself is not modelled",
+               "the model has no digit limit (finding D10, recorded under C12): numbers of more than 4300 digits, which the real Version() rejects, are "
+               "outside the generated domain of this check (largest generated: 4101 digits + a zero run of 50, thorough tier)"]
+TRUSTED_EXTRA = ["Version._key is never observed directly (it is private, and harmless re-layouts of it must not raise alarms): Py.key is tied to _cmpkey "
+                 "only through the outcomes of the six operators, hash equality, set membership and sorted() on generated pairs"]
 
 def pool(rng, n):
     vs = []
